@@ -54,6 +54,8 @@ Lemma ztake_app {A} (w rest : list A) : ztake (zlen w) (w ++ rest) = w.
 Proof.
   unfold ztake, zlen. rewrite Nat2Z.id, firstn_app, Nat.sub_diag, firstn_all. cbn [firstn]. apply app_nil_r.
 Qed.
+Lemma ztake_app_eq {A} (w rest : list A) n : zlen w = n -> ztake n (w ++ rest) = w.
+Proof. intros <-. apply ztake_app. Qed.
 Lemma zdrop_app {A} (w rest : list A) : zdrop (zlen w) (w ++ rest) = rest.
 Proof.
   unfold zdrop, zlen. rewrite Nat2Z.id, skipn_app, Nat.sub_diag, skipn_all. reflexivity.
@@ -78,5 +80,10 @@ Proof. reflexivity. Qed.
 
 Lemma forallb_app_iff {A} (p : A -> bool) a b : forallb p (a ++ b) = forallb p a && forallb p b.
 Proof. apply forallb_app. Qed.
+
+Lemma firstn_repeat_le {A} (x : A) m k : (m <= k)%nat -> firstn m (repeat x k) = repeat x m.
+Proof. revert k. induction m as [|m IH]; intros k H; [reflexivity|]. destruct k; [lia|]. cbn. f_equal. apply IH. lia. Qed.
+Lemma skipn_repeat_le {A} (x : A) m k : (m <= k)%nat -> skipn m (repeat x k) = repeat x (k - m).
+Proof. revert k. induction m as [|m IH]; intros k H; [rewrite Nat.sub_0_r; reflexivity|]. destruct k; [lia|]. cbn. apply IH. lia. Qed.
 
 Ltac zlens := rewrite ?zlen_app, ?zlen_cons, ?zlen_nil, ?zlen_map, ?zlen_repeat in *.
